@@ -1,10 +1,72 @@
 (* FunsNum.v — number functions over IEEE doubles.
    `sem_num f vals = Some r` : f is modelled here and yields r on these argument values
-   (r = None is jawk's "nothing"); `None` : f is not modelled in this file. *)
-From Jawk Require Import Base F64 Json Printer Fn FunBase.
+   (r = None is jawk's "nothing"); `None` : f is not modelled in this file.
+
+   Every function converts its numeric arguments with `impl From<NumberValue> for f64`
+   (integers `as f64`: precision is lost above 2^53), computes on doubles, and converts the result
+   back with `impl From<f64> for JsonValue` ([num_of_f]: integral results in range become
+   integers, -0.0 becomes 0, non-finite results stay floats and print as inf / NaN). *)
+From Jawk Require Import Base F64 F64Arith Json Printer Fn FunBase.
 Local Open Scope N_scope.
+
+Definition jflt (bits : N) : json := JNum (num_of_f bits).
+
+(* `if let Some(JsonValue::Number(num)) = ... { let num: f64 = num.into(); ...}` *)
+Definition as_f (v : option json) : option N :=
+  match v with Some (JNum n) => Some (num_to_f n) | _ => None end.
+
+(* abs, ceil, floor, round *)
+Definition unary_sem (op : N -> N) (vals : list (option json)) : option json :=
+  match as_f (arg vals 0%nat) with
+  | Some x => Some (jflt (op x))
+  | None => None
+  end.
+
+(* +, * : fold from the unit, nothing as soon as one argument is not a number *)
+Fixpoint fold_sem (op : N -> N -> N) (acc : N) (vals : list (option json)) : option json :=
+  match vals with
+  | [] => Some (jflt acc)
+  | v :: t => match as_f v with
+              | Some x => fold_sem op (op acc x) t
+              | None => None
+              end
+  end.
+
+(* /, % : nothing when the second argument == 0.0 (that is +0.0 or -0.0) *)
+Definition guarded_sem (op : N -> N -> N) (vals : list (option json)) : option json :=
+  match as_f (arg vals 0%nat), as_f (arg vals 1%nat) with
+  | Some x, Some y => if f_eqb y (f_zero false) then None else Some (jflt (op x y))
+  | _, _ => None
+  end.
+
+(* - : one argument: 0 - x; two arguments: x - y *)
+Definition sub_sem (vals : list (option json)) : option json :=
+  let '(a, b) := if Nat.eqb (length vals) 1%nat
+                 then (Some (f_zero false), as_f (arg vals 0%nat))
+                 else (as_f (arg vals 0%nat), as_f (arg vals 1%nat)) in
+  match a, b with
+  | Some x, Some y => Some (jflt (f_sub x y))
+  | _, _ => None
+  end.
+
+(* sum : the argument must be a list of numbers *)
+Definition sum_sem (vals : list (option json)) : option json :=
+  match arg vals 0%nat with
+  | Some (JArr l) => fold_sem f_add (f_zero false) (map Some l)
+  | _ => None
+  end.
 
 Definition sem_num (f : fn) (vals : list (option json)) : option (option json) :=
   match f with
+  | F_abs => Some (unary_sem f_abs vals)
+  | F_ceil => Some (unary_sem f_ceil vals)
+  | F_floor => Some (unary_sem f_floor vals)
+  | F_round => Some (unary_sem f_round vals)
+  | F_add => Some (fold_sem f_add (f_zero false) vals)
+  | F_mul => Some (fold_sem f_mul f_one vals)
+  | F_div => Some (guarded_sem f_div vals)
+  | F_rem => Some (guarded_sem f_rem vals)
+  | F_sub_ => Some (sub_sem vals)
+  | F_sum => Some (sum_sem vals)
   | _ => None
   end.
